@@ -206,7 +206,12 @@ func runC15(r *simkit.Run) {
 		panic(err)
 	}
 	if err := rcv.Start(context.Background(), host); err != nil {
-		panic(fmt.Sprintf("receiver start: %v", err))
+		// no socket to be had right now: an infrastructure condition, not a property violation
+		r.Count("probe.infra_socket_unavailable")
+		r.Logf("skipped: receiver start: %v", sanitize(err, pg, ph))
+		_ = rcv.Shutdown(context.Background())
+		time.Sleep(200 * time.Millisecond)
+		return
 	}
 	rcvDown := false
 	stopReceiver := func() {
@@ -320,6 +325,12 @@ func runC15(r *simkit.Run) {
 	simkit.Beat()
 	serr := send(context.Background())
 	simkit.Beat()
+	if serr != nil && (strings.Contains(serr.Error(), "cannot assign requested address") || strings.Contains(serr.Error(), "address already in use")) {
+		r.Count("probe.infra_socket_unavailable")
+		r.Logf("skipped: %v", sanitize(serr, pg, ph))
+		time.Sleep(200 * time.Millisecond)
+		return
+	}
 	// The receiver goes first so that the server side closes the connections (see C16: keeps ephemeral client ports
 	// out of TIME_WAIT).
 	stopReceiver()
@@ -509,6 +520,11 @@ func runC15Raw(r *simkit.Run, cfg c15Cfg, ph int, sent []byte, mu *sync.Mutex, s
 	cl := &http.Client{Timeout: 10 * time.Second}
 	defer cl.CloseIdleConnections()
 	resp, err := cl.Do(req)
+	if err != nil && (strings.Contains(err.Error(), "cannot assign requested address") || strings.Contains(err.Error(), "address already in use")) {
+		r.Count("probe.infra_socket_unavailable")
+		time.Sleep(200 * time.Millisecond)
+		return
+	}
 	if err != nil {
 		r.Failf("raw", "request-failed/"+cfg.Raw, "raw request failed: %v", sanitize(err, ph))
 		return
@@ -528,7 +544,7 @@ func runC15Raw(r *simkit.Run, cfg c15Cfg, ph int, sent []byte, mu *sync.Mutex, s
 }
 
 var HarnessC15 = simkit.Harness{
-	Prop: "C15", Name: "svc/c15", Run: runC15, NoBubble: true, StepTimeout: 60e9,
+	Prop: "C15", Name: "svc/c15", Run: runC15, NoBubble: true, StepTimeout: 60e9, RateLimit: 40,
 	Real: []string{"otlpreceiver (gRPC and HTTP servers, created by its factory)", "otlpexporter (gRPC) and otlphttpexporter (protobuf and JSON), created by their factories on top of exporterhelper", "configgrpc / confighttp / configauth middleware incl. server-side authentication and every supported compression", "pdata request wrappers and codecs", "kernel loopback TCP"},
 	Stub: []string{"consumer behind the receiver (accepts / permanent / transient / gRPC status of each code with or without RetryInfo)", "server authenticator extension (expects a bearer token)", "raw HTTP client for malformed requests"},
 	Rule: "one run = one request through one hop: tape-drawn signal, generated payload (or an empty one), transport (gRPC, HTTP/protobuf, HTTP/JSON), compression, consumer outcome (accept, permanent, transient, gRPC status of each of 16 codes with/without RetryInfo of 0/0.5/2/61 s), server authenticator on/off with/without client credentials; or a raw malformed HTTP request (bad body, wrong content type, wrong method, missing credentials, empty payload); retries and queues are off, one request at a time; runs outside the synctest bubble on real loopback sockets; the OTLP specification's gRPC and HTTP status tables are written out in the oracle; distinct = distinct event-log hash; non-trivial = a refusing consumer, compression or a malformed request",
